@@ -3,5 +3,6 @@ From PV Require Import Base.Bytes Base.Outcome Base.DrvBase Model.TxBuild Model.
 Extraction "../ml/c13.ml" drv_base
   split_with_remainder recommended_fee distribute_from_split_pool create_tx
   total_out total_in fee tx_is_coinbase txin_is_coinbase validate_unspents
+  distribute_from_split_pool_st set_unspents_st unspents_from_db_st step run
   dec_mul dec_div dec_quantize dec_to_int dec_fix ndigits
   satoshi_to_btc btc_to_satoshi satoshi_to_mbtc mbtc_to_satoshi.
